@@ -74,9 +74,12 @@ Accepted subset (anything else raises TranslateError with file:line):
               and stores x[c] = self.custom_copy(e) through that name;  x = self.cp[p] (a name
               for an immutable level dict);  print(.., file=sys.stderr) (dropped);  calls of
               translated methods as statements;  docstrings;  pass.
-              A private method without a spec of the form `def h(self): [docstring] return e` is
-              inlined at its call sites self.h() (e is translated in place, on the caller's
-              self); any other unknown method of the three classes is refused.
+              A private method without a spec of the form `def h(self): [docstring]
+              x = e | a, b = e1, e2 ... return e` (straight-line assignments to fresh locals) is
+              inlined at its call sites self.h() (the assignments become lets with fresh names,
+              e is translated in place, on the caller's self); any other unknown method of the
+              three classes is refused.  `if A and B:` without else whose operands call methods
+              is read as `if A: if B:` (short circuit).
   expressions names;  int constants, True, False, None;  -e, a + b, a - b on ints;  s + t, s + c on
               strings;  len(..);  s[a:b];  l[i];  the attribute / subscript forms of the objects
               above;  < <= > >= == != on ints;  k in D / k not in D on self.cp, self.cp[p],
@@ -212,12 +215,14 @@ class Env:
         self.types = {}        # name -> Ty
         self.alive = set()     # alias names that still denote self.parse_tree[-1]
         self.init_attrs = None  # inside __init__: the attributes stored so far
+        self.rename = {}       # Python name -> Gallina name (locals of an inlined helper get fresh names)
 
     def copy(self):
         e = Env()
         e.types = dict(self.types)
         e.alive = set(self.alive)
         e.init_attrs = self.init_attrs       # shared on purpose: first stores are top-level statements
+        e.rename = dict(self.rename)
         return e
 
 
@@ -334,7 +339,7 @@ class FunctionTranslator:
                 self.fail(e, "%r may only be stored through" % e.id)
             if ty.kind in ("paircomp", "dead"):
                 self.fail(e, "%r cannot be used here (%s)" % (e.id, getattr(ty, "why", "result of _find_cp before the None test")))
-            return e.id, ty
+            return env.rename.get(e.id, e.id), ty
         if isinstance(e, ast.Constant):
             if e.value is True:
                 return "true", BOOL
@@ -618,6 +623,10 @@ class FunctionTranslator:
         -> e (it is inlined at its call sites), else None"""
         return expression_helper(self.cls_node, self.spec["cls"], name)
 
+    def helper(self, name):
+        """-> (assignments, e) of an inlinable private helper, else None"""
+        return helper_body(self.cls_node, self.spec["cls"], name)
+
     def call(self, e, env):
         f = e.func
         if isinstance(f, ast.Name) and f.id == "len" and len(e.args) == 1 and not e.keywords:
@@ -640,8 +649,10 @@ class FunctionTranslator:
                 spec = self.lookup_spec(self.spec["cls"], f.attr)
                 if f.attr == self.spec["py"] and self.spec.get("recursive"):
                     spec = self.spec
-                if spec is None and not e.args and not e.keywords and self.expr_helper(f.attr) is not None:
-                    # a private helper `def h(self): return e` is inlined: e is evaluated here, on this self
+                if spec is None and not e.args and not e.keywords and self.helper(f.attr) is not None:
+                    # a private helper `def h(self): x = ..; return e` is inlined: its assignments become lets
+                    # (fresh names) and e is evaluated here, on this self
+                    assigns, ret = self.helper(f.attr)
                     henv = Env()
                     henv.types["self"] = env.types["self"]
                     if "opt" in env.types:
@@ -651,7 +662,16 @@ class FunctionTranslator:
                     if self.inline_depth > 3:
                         self.fail(e, "helpers nested too deeply")
                     try:
-                        r = self.expr(self.expr_helper(f.attr), henv)
+                        for names, exprs in assigns:
+                            vals = [self.value(x, henv) for x in exprs]      # Python evaluates the right-hand sides first
+                            for n, (text, ty) in zip(names, vals):
+                                if ty.kind not in ("int", "bool", "str", "char"):
+                                    self.fail(e, "the helper %s holds a value of type %s in a local" % (f.attr, ty.kind))
+                                fresh = self.tmp()
+                                self.emit("let %s := %s in" % (fresh, text))
+                                henv.types[n] = ty
+                                henv.rename[n] = fresh
+                        r = self.expr(ret, henv)
                     finally:
                         self.inline_depth -= 1
                     return r
@@ -815,13 +835,15 @@ class FunctionTranslator:
         v = f.value
         if isinstance(v, ast.Name) and v.id == "self":
             spec = self.lookup_spec(self.spec["cls"], f.attr) or (self.spec if f.attr == self.spec["py"] else None)
-            if spec is None and self.expr_helper(f.attr) is not None and f.attr not in getattr(self, "_eff_seen", ()):
+            if spec is None and self.helper(f.attr) is not None and f.attr not in getattr(self, "_eff_seen", ()):
                 self._eff_seen = getattr(self, "_eff_seen", ()) + (f.attr,)
                 try:
                     out = []
-                    for m in ast.walk(self.expr_helper(f.attr)):
-                        if isinstance(m, ast.Call):
-                            out += [x for x in self.call_effects(m) if x not in out]
+                    assigns, ret = self.helper(f.attr)
+                    for x0 in [x for _n, xs in assigns for x in xs] + [ret]:
+                        for m in ast.walk(x0):
+                            if isinstance(m, ast.Call):
+                                out += [x for x in self.call_effects(m) if x not in out]
                     return out
                 finally:
                     self._eff_seen = self._eff_seen[:-1]
@@ -1306,6 +1328,15 @@ class FunctionTranslator:
         return out + self.block(rest, env, k, ind)
 
     def if_(self, s, rest, env, k, ind):
+        t = s.test
+        if isinstance(t, ast.BoolOp) and isinstance(t.op, ast.And) and not s.orelse and len(t.values) >= 2 \
+                and any(isinstance(n, ast.Call) and isinstance(n.func, ast.Attribute) for v in t.values for n in ast.walk(v)):
+            # `if A and B: body` (no else) is `if A: if B: body`: B is only evaluated when A holds
+            inner = ast.If(test=t.values[-1], body=list(s.body), orelse=[])
+            ast.copy_location(inner, s)
+            for v in reversed(t.values[:-1]):
+                inner = ast.copy_location(ast.If(test=v, body=[inner], orelse=[]), s)
+            return self.if_(inner, rest, env, k, ind)
         form = self.cond_form(s, env)
         body, orelse = list(s.body), list(s.orelse)
         bt, et = self.terminates(body), self.terminates(orelse)
@@ -1648,8 +1679,11 @@ class FunctionTranslator:
 
 
 # ------------------------------------------------------------------ modules
-def expression_helper(cls_node, clsname, name):
-    """`def name(self): [docstring] return e` among the methods of the class that have no spec -> e, else None"""
+def helper_body(cls_node, clsname, name):
+    """a private method without a spec of the form
+           def name(self): [docstring]  x = e | a, b = e1, e2 ...  return e
+       (straight-line assignments to fresh local names, each assigned once) -> (assignments, e) with
+       assignments = [([names], [expressions])], else None"""
     known = {s["py"] for s in SPECS if s["cls"] == clsname} | set(CLASSES[clsname]["untranslated"])
     if name in known:
         return None
@@ -1663,9 +1697,31 @@ def expression_helper(cls_node, clsname, name):
         return None
     body = [b for b in fn.body if not (isinstance(b, ast.Expr) and isinstance(b.value, ast.Constant)
                                        and type(b.value.value) is str) and not isinstance(b, ast.Pass)]
-    if len(body) != 1 or not isinstance(body[0], ast.Return) or body[0].value is None:
+    if not body or not isinstance(body[-1], ast.Return) or body[-1].value is None:
         return None
-    return body[0].value
+    assigns, seen = [], {"self"}
+    for b in body[:-1]:
+        if not (isinstance(b, ast.Assign) and len(b.targets) == 1):
+            return None
+        t, v = b.targets[0], b.value
+        if isinstance(t, ast.Name):
+            names, exprs = [t.id], [v]
+        elif isinstance(t, ast.Tuple) and isinstance(v, ast.Tuple) and len(t.elts) == len(v.elts) \
+                and all(isinstance(x, ast.Name) for x in t.elts) and not any(isinstance(x, ast.Starred) for x in v.elts):
+            names, exprs = [x.id for x in t.elts], list(v.elts)
+        else:
+            return None
+        if any(n in seen for n in names) or len(set(names)) != len(names):
+            return None
+        seen |= set(names)
+        assigns.append((names, exprs))
+    return assigns, body[-1].value
+
+
+def expression_helper(cls_node, clsname, name):
+    """`def name(self): [docstring] return e` -> e, else None"""
+    h = helper_body(cls_node, clsname, name)
+    return h[1] if h is not None and not h[0] else None
 
 
 def _parse(repo, rel):
@@ -1698,8 +1754,8 @@ def _check_class(path, cls, clsname):
         if not isinstance(n, ast.FunctionDef):
             raise TranslateError("%s:%d: class %s: unsupported statement in the class body" % (path, n.lineno, clsname))
         if n.name not in known:
-            if expression_helper(cls, clsname, n.name) is not None:
-                continue             # `def h(self): return e`: inlined where a translated method calls it
+            if helper_body(cls, clsname, n.name) is not None:
+                continue             # `def h(self): x = ..; return e`: inlined where a translated method calls it
             raise TranslateError("%s:%d: class %s has a method %s the translator does not know (it could change the "
                                  "modelled state)" % (path, n.lineno, clsname, n.name))
         seen.append(n.name)
